@@ -42,6 +42,7 @@ type logSpec struct {
 	Interval  *[2]time.Time
 	Roots     map[int]bool // indexes of PKI roots it accepts
 	RootsFail bool         // GetAcceptedRoots fails (roots stay unknown to the distributor)
+	RootsJunk bool         // get-roots answers carry one entry that is no certificate: RefreshRoots reports a problem for the log and - as documented - still takes the roots that did parse
 	Behaviour string       // good | bad | hang
 }
 
@@ -86,6 +87,7 @@ type refresh struct {
 	startAt          time.Duration
 	startSeq, endSeq int
 	ok               map[string]bool
+	ans              map[string]map[int]bool // per log whose get-roots call was answered: the roots it named (parseable ones)
 	done             bool
 }
 
@@ -223,6 +225,7 @@ func (w *World) Init(s *kernel.Sim) {
 			}
 		}
 		l.RootsFail = t.Chance(1, 6)
+		l.RootsJunk = !l.RootsFail && t.Chance(1, 5)
 		switch t.Pick([]int{6, 2, 1}) {
 		case 1:
 			l.Behaviour = "bad"
@@ -361,9 +364,23 @@ func (c *logClient) GetAcceptedRoots(ctx context.Context) ([]ct.ASN1Cert, error)
 		return nil, errors.New("get-roots failed")
 	}
 	var out []ct.ASN1Cert
+	named := map[int]bool{}
 	for _, r := range sortedRoots(c.l.Roots) {
 		out = append(out, ct.ASN1Cert{Data: c.w.roots[r].DER})
+		named[r] = true
 	}
+	if c.l.RootsJunk {
+		out = append(out, ct.ASN1Cert{Data: []byte("not a certificate")})
+	}
+	// which refresh asked (the worlds own refreshes run under the goroutine name refresh<id>)
+	who := kernel.RootOf(c.w.here("refresh"))
+	c.w.partyMu.Lock()
+	for _, r := range c.w.refreshes {
+		if fmt.Sprintf("refresh%d", r.id) == who || (who == "refresh" && !r.done) { // (without goroutine names there is one refresh at a time)
+			r.ans[c.l.URL] = named
+		}
+	}
+	c.w.partyMu.Unlock()
 	return out, nil
 }
 
@@ -615,6 +632,8 @@ func (w *World) Options(s *kernel.Sim) []kernel.Option {
 		}
 		if w.lock {
 			opts = append(opts, w.sideOptions()...)
+		} else if w.dist != nil && w.rootFlips < 2 && len(w.refreshes) > 0 {
+			opts = append(opts, w.rootFlipOption()) // the logs' root sets move between two refreshes of the distributor
 		}
 		for _, c := range w.calls {
 			if c.MayCancel && !c.Done && !c.Cancelled && c.ctx != nil && !held[c.Party] {
@@ -661,7 +680,7 @@ func (w *World) refreshStartedNow() bool {
 func (w *World) startRefresh() {
 	w.refreshing++
 	w.seq++
-	r := &refresh{id: len(w.refreshes), startAt: w.s.Now(), startSeq: w.seq, ok: map[string]bool{}}
+	r := &refresh{id: len(w.refreshes), startAt: w.s.Now(), startSeq: w.seq, ok: map[string]bool{}, ans: map[string]map[int]bool{}}
 	w.refreshes = append(w.refreshes, r)
 	w.s.Go(func() {
 		w.name(fmt.Sprintf("refresh%d", r.id))
@@ -703,6 +722,34 @@ func (w *World) knownThroughout(u string, c *call) bool {
 		}
 	}
 	return last.ok[u]
+}
+
+// answeredWithout: the distributor's knowledge during the whole of call c was what the last refresh completed before
+// the call had been told (no refresh overlapped the call, concurrent refreshes agreed), log u answered that refresh,
+// and the roots it named do not include the chain's root. What the log accepts *now* does not matter: the
+// distributor acts on what it was told.
+func (w *World) answeredWithout(u string, c *call) bool {
+	var last *refresh
+	for _, r := range w.refreshes {
+		if !r.done || r.endSeq > c.StartSeq {
+			if r.startSeq < c.EndSeq {
+				return false
+			}
+			continue
+		}
+		if last == nil || r.endSeq > last.endSeq {
+			last = r
+		}
+	}
+	if last == nil || last.ans[u] == nil {
+		return false
+	}
+	for _, r := range w.refreshes {
+		if r != last && r.done && r.endSeq != 0 && r.startSeq < last.endSeq && r.endSeq > last.startSeq {
+			return false // refreshes that ran concurrently: which one wrote last is the distributor's business
+		}
+	}
+	return !last.ans[u][c.Root]
 }
 
 // AfterStep harvests finished refreshes and calls.
@@ -783,8 +830,8 @@ func (w *World) judge(c *call) {
 		case !l.Roots[c.Root] && c.Kind == "proxy" && c.RootsKnown && !c.RootsMoved && !c.ListMoved && !l.RootsFail:
 			s.Violate("contacted-incompatible", "roots/proxy-after-refresh", "%s: log %s does not accept root %d, the proxy's distributor had every opportunity to learn that (its list and the logs' roots had settled), and the log was sent the chain", c.Party, u, c.Root)
 			return
-		case !l.Roots[c.Root] && c.Kind == "dist" && w.rootFlips == 0 && w.knownThroughout(u, c):
-			s.Violate("contacted-incompatible", "roots", "%s: log %s does not accept root %d, the distributor knew its roots, and it was sent the chain", c.Party, u, c.Root)
+		case c.Kind == "dist" && w.answeredWithout(u, c):
+			s.Violate("contacted-incompatible", "roots", "%s: the last roots refresh completed before the call was answered by log %s with a root set that lacks root %d (junk entry in that answer: %v), no refresh overlapped the call, and the log was sent the chain", c.Party, u, c.Root, l.RootsJunk)
 			return
 		case c.Kind == "proxy" && c.List == 1 && !c.ListMoved && u == w.llRetired:
 			s.Violate("contacted-incompatible", "state:retired-by-refreshed-list", "%s: the log list in force since %v retires %s, the proxy had every opportunity to pick it up, and the log was still sent the chain", c.Party, w.llSince, u)
